@@ -190,7 +190,7 @@ func vC13Session(c vSx) (res vC13Result) {
 	}
 
 	// ---- the operations
-	W.SetWriteDeadline(time.Now().Add(20 * time.Second))
+	W.SetWriteDeadline(time.Now().Add(6 * time.Second))
 	var cur io.WriteCloser
 	var codes []vSx
 	var outOps []vSx
@@ -381,8 +381,8 @@ func vC13Session(c vSx) (res vC13Result) {
 	}
 	select {
 	case <-done:
-	case <-time.After(20 * time.Second):
-		bad("peer-read", "peer did not finish reading within 20 s")
+	case <-time.After(6 * time.Second):
+		bad("peer-read", "peer did not finish reading within 6 s")
 		W.UnderlyingConn().Close()
 		R.UnderlyingConn().Close()
 		<-done
@@ -390,7 +390,7 @@ func vC13Session(c vSx) (res vC13Result) {
 
 	select {
 	case <-wdone:
-	case <-time.After(3 * time.Second):
+	case <-time.After(1 * time.Second):
 		W.UnderlyingConn().Close()
 		R.UnderlyingConn().Close()
 		<-wdone
